@@ -15,6 +15,3 @@ def run(tier, rep):
         "a constant evaluation that is rejected by the compiler counts only where libm's result is finite",
     ]
 
-
-def replay(path):
-    return floatpipe.replay(path, "C16")
